@@ -72,6 +72,11 @@ def cases(rng, tier):
                     if n > 1 and other[(j + 1) % n] > 0 and rng.random() < 0.7:
                         other[(j + 1) % n] -= 1
                     if rng.random() < 0.25:
+                        # an operand with a DIFFERENT NUMBER OF ROWS (one row against several, no row against one), rows empty or not
+                        other = rng.choice([[0], [0, 0, 0], [], [lens[0]], list(lens) + [0], list(lens)[:-1]])
+                        if other == list(lens):
+                            other = list(lens) + [0]
+                    elif rng.random() < 0.25:
                         # an operand with ONE cell in all (numpy would broadcast it): same row count, all rows but one empty
                         one = [0] * n; one[rng.choice([n - 1, n - 1, rng.randrange(n)])] = 1
                         if one != list(lens):
